@@ -111,18 +111,15 @@ func VerifC09Gate() {
 	verifForceOK = false
 }
 
-// VerifC09GateAny: whatever a client puts into X-Forwarded-For (every ASCII
-// string of l bytes, including blanks and commas) it is limited like any other
+// VerifC09GateAny: whatever a client puts into X-Forwarded-For (every
+// string of l bytes, including blanks, commas and non-ASCII bytes) it is limited like any other
 // client: of three identical requests at one instant at most max_tokens (1..2)
 // are admitted and forwarded.
 func VerifC09GateAny(l int) {
 	lb, bs := verifFullLB(0, 1, verifFeatLimiter)
 	verifForceOK = true
 	defer func() { verifForceOK = false }()
-	xff := verifrt.String("xForwardedFor", l)
-	for i := 0; i < len(xff); i++ {
-		verifrt.Assume(xff[i] < 0x80)
-	}
+	xff := verifrt.String("xForwardedFor", l) // any bytes, including multi-byte Unicode white space
 	admitted := 0
 	for i := 0; i < 3; i++ {
 		r := verifRequest("10.1.2.3:4711")
